@@ -219,13 +219,24 @@ impl Context {
     #[cfg(feature = "serde_json")]
     pub fn load_currency(&mut self, live_data: &str, currency_units: &str) -> Result<(), String> {
         let mut base_defs = crate::loader::gnu_units::parse_str(currency_units);
-        let mut live_defs: Vec<crate::ast::DefEntry> =
-            serde_json::from_str(&live_data).map_err(|err| format!("{}", err))?;
+        let mut live_defs = Self::parse_currency(live_data)?;
 
         let mut defs = vec![];
         defs.append(&mut base_defs.defs);
         defs.append(&mut live_defs);
         self.load(crate::ast::Defs { defs })
+    }
+
+    #[cfg(feature = "serde_json")]
+    fn parse_currency(live_data: &str) -> Result<Vec<crate::ast::DefEntry>, String> {
+        serde_json::from_str(live_data).map_err(|err| format!("{}", err))
+    }
+
+    /// Tells whether `live_data` is a complete, well formed currency
+    /// file, as `load_currency` wants it, without loading anything.
+    #[cfg(feature = "serde_json")]
+    pub fn check_currency(live_data: &str) -> Result<(), String> {
+        Self::parse_currency(live_data).map(|_| ())
     }
 
     /// Evaluates an expression to compute its value, *excluding* `->`
